@@ -259,6 +259,10 @@ class Aspire:
                     if overwrite:
                         del h5_file["flow"]
                         self.save_flow(h5_file)
+                    elif defaults is not None:
+                        # The stored flow is now out of date; the next
+                        # sampling call in this context replaces it
+                        defaults["saved_flow"] = False
                 else:
                     self.save_flow(h5_file)
         return history
@@ -502,11 +506,10 @@ class Aspire:
                     saved_config = True
                     if defaults is not None:
                         defaults["saved_config"] = True
-                if (
-                    self.flow is not None
-                    and not saved_flow
-                    and "flow" not in h5_file
-                ):
+                if self.flow is not None and not saved_flow:
+                    # The file must hold the flow this run samples from
+                    if "flow" in h5_file:
+                        del h5_file["flow"]
                     self.save_flow(h5_file)
                     saved_flow = True
                     if defaults is not None:
